@@ -20,6 +20,7 @@ FT = {
     "tup": ("(u8, char)", ["(1u8, 'x')", "(9u8, '\\n')"]),
     "unit": ("()", ["()"]),
     "inner": ("Inner", ["Inner { a: 1, b: 2.5 }", "Inner { a: 255, b: -1.0 }"]),
+    "sh": ("::dxrt::Sh", ["::dxrt::Sh(1)", "::dxrt::Sh(40)"]),    # inherent fn fmt() that prints something else
     "T": ("T", ["7u8", "8u8"]),
     "optT": ("::core::option::Option<T>", ["::core::option::Option::Some(1u8)", "::core::option::Option::None"]),
 }
@@ -177,6 +178,13 @@ def core():
                 specs.append({"kind": "struct", "variants": [{"style": style, "fields": fs}], "generic": False,
                               "entry": "attr" if k % 2 else "derive"})
     specs.append({"kind": "struct", "variants": [{"style": "unit", "fields": []}], "generic": False, "entry": "attr"})
+    # twelve fields (names / indices whose text order differs from the declaration order), some ignored
+    cyc = ["u8", "i32", "str", "opt", "tup", "sh"]
+    for style in ("named", "tuple"):
+        fs = [fld(cyc[i % len(cyc)], ignore=(i in (3, 10))) for i in range(12)]
+        specs.append({"kind": "struct", "variants": [{"style": style, "fields": fs}], "generic": False, "entry": "attr" if style == "named" else "derive"})
+        specs.append({"kind": "enum", "variants": [{"style": "unit", "fields": []}, {"style": style, "fields": [dict(f) for f in fs]}], "generic": False,
+                      "entry": "derive" if style == "named" else "attr"})
     specs.append({"kind": "enum", "generic": True, "entry": "derive", "variants": [
         {"style": "unit", "fields": []}, {"style": "named", "fields": []}, {"style": "tuple", "fields": []},
         {"style": "named", "fields": [fld("T"), fld("optT", ignore=True), fld("inner")]},
@@ -262,7 +270,7 @@ def run(rep, tier, rng):
             break
     rep.canary = bool(check_case(ok.meta["spec"], ev))
     rep.rule = ("struct/enum shapes (unit, tuple, named, empty braces/parens, nested derived type, generic) with every subset of <=3 "
-                "fields ignored, each choice of transparent field, plus random shapes; each value is formatted with 12 format specs "
+                "fields ignored, each choice of transparent field, 12-field shapes, a field type with an inherent fmt(), plus random shapes; each value is formatted with 12 format specs "
                 "(alternate, width, fill/alignment, sign, precision, hex, combinations) by the derive_ex type and by a std-derived "
                 "twin with the ignored fields deleted (or the transparent field alone) and the strings compared. evaluations = "
                 "format calls compared; distinct_nontrivial = distinct (kind, variant style, per-field (type, ignore, transparent)).")
